@@ -33,7 +33,8 @@ open Hls.Gen
 def phasePolicy : AccField → Policy AccFn
   /- ── codec parameters (objects supplied by the user in Track.Codec; the muxer updates them) ── -/
   -- read by the multivariant handler (populateMultivariantPlaylist, codecparams.Marshal) under M, so a
-  -- writer must hold M as well.  The unchanged tree does NOT (muxerSegmenter.write*): finding F14a.
+  -- writer must hold M as well: muxerSegmenter.write* take `s.mutex` (= &m.mutex) around the assignments
+  -- since fix-F14a; before it they did not (finding F14a, `legacyKnownRaces`).
   | .AV1_SequenceHeader | .H264_SPS | .H265_SPS
   | .VP9_Width | .VP9_Height | .VP9_Profile | .VP9_BitDepth => .ownerWrites .M
   -- never read by a handler (only by the writer itself: write*, codecs.ToFMP4 inside the rotation)
@@ -48,7 +49,7 @@ def phasePolicy : AccField → Policy AccFn
   | .Track_ClockRate | .Track_Codec | .Track_IsDefault | .Track_Language | .Track_Name => .initOnly
   /- ── muxerStream ── -/
   -- the mutable state every handler looks at: guarded by M (handlers read, rotations write)
-  | .muxerStream_closed            -- F5: muxerStream.close stores it WITHOUT M on the unchanged tree
+  | .muxerStream_closed            -- stored by muxerStream.close, which Muxer.Close calls under M since 51db1fe (before: F5)
   | .muxerStream_initFilePresent | .muxerStream_nextPartID | .muxerStream_nextSegmentID
   | .muxerStream_partTargetDuration | .muxerStream_segmentDeleteCount | .muxerStream_segments
   | .muxerStream_targetDuration => .ownerWrites .M
@@ -127,7 +128,7 @@ def phasePolicy : AccField → Policy AccFn
   -- A partDisk is published with its muxerPart while its FILE is still open: fileDisk.Finalize (under M, or
   -- from Close without it) later drops `buffer` and fileDisk.NewPart / Finalize set `size`, while a part
   -- handler (which does not take M) may be inside partDisk.Reader.  So these two need a lock of their own:
-  -- F = fileDisk.mutex (introduced by repo_patches/fix-F14b.diff).  On the unchanged tree: finding F14b.
+  -- F = fileDisk.mutex (introduced by fix-F14b).  Before the fix: finding F14b (`legacyKnownRaces`).
   | .partDisk_buffer | .partDisk_size => .ownerWrites .F
 
 /-- `&x.f` that only creates a read-only alias: `DateTime: &seg.startNTP` is stored in a
@@ -139,17 +140,22 @@ def phaseAddrReadOnly : List (AccFn × AccField) :=
 
 def phaseMap : Discipline AccFn AccField := { policy := phasePolicy, addrReadOnly := phaseAddrReadOnly }
 
-/-- A row that is known NOT to follow the discipline on the unchanged tree (a genuine data race,
-    demonstrated with the race detector — notes/race.md). -/
+/-- A named row that does not follow the discipline (a genuine data race). -/
 structure KnownRace where
   tag   : String
   fn    : AccFn
   field : AccField
 
-def knownRaces : List KnownRace := [
-  -- F5: muxerStream.close stores `closed` outside the muxer mutex (handlers read it under M)
+/-- Rows excepted from the theorems of `Hls.Props.C08`: NONE — F5, F14a and F14b are repaired, the theorems are
+    about the full regenerated table. (A future finding that is not repaired would be named here.) -/
+def knownRaces : List KnownRace := []
+
+/-- The data races of the tree BEFORE the repairs (51db1fe for F5, fix-F14a, fix-F14b), kept as documentation and
+    as a test of the discipline's detection power (`Hls.Props.C08.c08_legacy_rows_rejected`). -/
+def legacyKnownRaces : List KnownRace := [
+  -- F5: muxerStream.close stored `closed` outside the muxer mutex (handlers read it under M)
   ⟨"F5-stream-closed-race", .muxerStream_close, .muxerStream_closed⟩,
-  -- F14a: Write* store new codec parameters outside the muxer mutex (the multivariant handler reads them under M)
+  -- F14a: Write* stored new codec parameters outside the muxer mutex (the multivariant handler reads them under M)
   ⟨"F14a-codec-params-race", .muxerSegmenter_writeAV1, .AV1_SequenceHeader⟩,
   ⟨"F14a-codec-params-race", .muxerSegmenter_writeH264, .H264_SPS⟩,
   ⟨"F14a-codec-params-race", .muxerSegmenter_writeH265, .H265_SPS⟩,
@@ -157,7 +163,7 @@ def knownRaces : List KnownRace := [
   ⟨"F14a-codec-params-race", .muxerSegmenter_writeVP9, .VP9_Height⟩,
   ⟨"F14a-codec-params-race", .muxerSegmenter_writeVP9, .VP9_Profile⟩,
   ⟨"F14a-codec-params-race", .muxerSegmenter_writeVP9, .VP9_BitDepth⟩,
-  -- F14b: fileDisk.Finalize / NewPart write a published part's buffer / size, partDisk.Reader reads them, no common lock
+  -- F14b: fileDisk.Finalize / NewPart wrote a published part's buffer / size, partDisk.Reader read them, no common lock
   ⟨"F14b-partdisk-buffer-race", .fileDisk_Finalize, .partDisk_buffer⟩,
   ⟨"F14b-partdisk-buffer-race", .partDisk_Reader, .partDisk_buffer⟩,
   ⟨"F14b-partdisk-buffer-race", .fileDisk_Finalize, .partDisk_size⟩,
@@ -165,13 +171,36 @@ def knownRaces : List KnownRace := [
   ⟨"F14b-partdisk-buffer-race", .partDisk_Reader, .partDisk_size⟩
 ]
 
+/-- The undisciplined rows of the access table as it was extracted from the tree before the repairs
+    (7987e8e: function, field, kind, locks held — none —, role): a frozen excerpt, NOT regenerated. -/
+def legacyRows : List (Access AccFn AccField) := [
+  ⟨.muxerStream_close, .muxerStream_closed, .w, [], .close⟩,
+  ⟨.muxerSegmenter_writeAV1, .AV1_SequenceHeader, .w, [], .writer⟩,
+  ⟨.muxerSegmenter_writeH264, .H264_SPS, .w, [], .writer⟩,
+  ⟨.muxerSegmenter_writeH265, .H265_SPS, .w, [], .writer⟩,
+  ⟨.muxerSegmenter_writeVP9, .VP9_Width, .w, [], .writer⟩,
+  ⟨.muxerSegmenter_writeVP9, .VP9_Height, .w, [], .writer⟩,
+  ⟨.muxerSegmenter_writeVP9, .VP9_Profile, .w, [], .writer⟩,
+  ⟨.muxerSegmenter_writeVP9, .VP9_BitDepth, .w, [], .writer⟩,
+  ⟨.fileDisk_Finalize, .partDisk_buffer, .w, [(.M, .excl)], .writer⟩,
+  ⟨.fileDisk_Finalize, .partDisk_buffer, .w, [], .close⟩,
+  ⟨.fileDisk_Finalize, .partDisk_size, .w, [(.M, .excl)], .writer⟩,
+  ⟨.fileDisk_Finalize, .partDisk_size, .w, [], .close⟩,
+  ⟨.fileDisk_NewPart, .partDisk_size, .w, [], .writer⟩,
+  ⟨.partDisk_Reader, .partDisk_buffer, .r, [], .handler⟩,
+  ⟨.partDisk_Reader, .partDisk_size, .r, [], .handler⟩
+]
+
 def isKnownRace (a : Access AccFn AccField) : Bool :=
   knownRaces.any fun k => k.fn == a.fn && k.field == a.field
 
-/-- the regenerated table minus the known races: the table the theorems are about -/
+def isLegacyKnownRace (a : Access AccFn AccField) : Bool :=
+  legacyKnownRaces.any fun k => k.fn == a.fn && k.field == a.field
+
+/-- the regenerated table minus the known races (= the full table while `knownRaces = []`) -/
 def checkedAccesses : List (Access AccFn AccField) := accesses.filter (fun a => !isKnownRace a)
 
-/-- rows of the regenerated table that do not follow the discipline (for reports; `[]` on `checkedAccesses`) -/
+/-- rows of a table that do not follow the discipline (for reports; `[]` on the regenerated table) -/
 def undisciplinedRows (tbl : List (Access AccFn AccField)) : List (Access AccFn AccField) :=
   tbl.filter (fun a => !rowOK phaseMap a)
 
